@@ -17,10 +17,9 @@ def generate(repo):
     def shapes():
         s = W('run_normal_WL')
         # the loop body, __run_flatcheck and indexInsideRelevantRegion are tied semantically (g_minipy -> Props/Tie/minipy_wl_tie.v);
-        # what stays here: the initialisation before the loop, the loop test, and the output / log statements the embedding drops
-        frags = ['g = [0] * self.nbins_actual', 'H = [0] * self.nbins_actual', 'f = np.exp(1)', 'nstep = 0', 'niter = 0',
-                 'oseqDmax, oseqPermut = self.seq.deltaMax(returnSeqDeltaMax=True)', 'oseq = Sequence(seq=oseqPermut)',
-                 'kold = oseq.kappa()', 'idx_old = np.argmin(abs(bincts - kold))', 'while f > self.convergence:',
+        # what stays here: the loop test, and the output / log statements the embedding drops
+        # the set-up before the loop is tied semantically as well (g_minipy -> Props/Tie/minipy_wlsetup_tie.v: setup_tie)
+        frags = ['while f > self.convergence:',
                  "dos.write('%0.3f\\t%5.6f\\n' % (bincts[i], g[i]))", 'return np.vstack((bincts, g))',
                  "self.writeLog(seqlog, '%0.3f\\t%s\\n' % (oseq.kappa(), oseq))",
                  "self.writeLog(hlog, str(flatcount) + '\\t' + self.fprintHVector(Hlocal) + '\\n')"]
